@@ -2,7 +2,7 @@
 import os
 import subprocess
 
-from .. import common, gm, reports, tree
+from .. import common, gm, reports, shimlog, tree
 from ..common import fsd, fse
 from ..runner import ok, violation, inconclusive
 
@@ -58,7 +58,11 @@ def _run(seed, pid, i, o, spec, meta, scratch):
     tree.materialise(spec, troot)
     roots = spec["roots"]
     roots_abs = [fse(os.path.join(troot, rt)) for rt in roots]
-    res, argv = gm.run_group(o, roots, troot, home)
+    # second monitor of C01 (read coverage): uncached, non-transform runs execute under the interposer
+    trace = pid == "C01" and not o["cache"] and not o["transform"] and i % 2 == 0
+    log = os.path.join(d, "shim.log")
+    extra_env = shimlog.shim_env(log, [troot]) if trace else None
+    res, argv = gm.run_group(o, roots, troot, home, extra_env=extra_env)
     if o["cache"] == "warm":
         res, argv = gm.run_group(o, roots, troot, home)
     witness = {"case": i, "opts": o, "spec": spec, "argv": [fsd(a) for a in argv], "cwd": troot,
@@ -75,8 +79,54 @@ def _run(seed, pid, i, o, spec, meta, scratch):
 
     counts = {"groups_reported": len(rep.groups), "opts": [gm.opts_sig(o)]}
     if pid == "C01":
+        if trace:
+            bad = _read_coverage(rep, log, witness, counts, o)
+            if bad:
+                return [bad]
         return _oracle_c01(o, rep, meta, witness, counts, troot)
     return _oracle_c03(o, rep, meta, witness, counts, roots_abs, res)
+
+
+def _read_coverage(rep, log, witness, counts, o):
+    """Every inode of a reported group with >=2 inodes must have been read from byte 0 to its end
+    (the streaming hash consumes every byte), as seen in the interposer's event log."""
+    ev, fired, junk = shimlog.parse(log)
+    by_inode = {}
+    ino_of = {}
+    for e in ev:
+        if e.op == "read" and e.ret > 0:
+            try:
+                key = ino_of.get(e.p1)
+                if key is None:
+                    st = os.stat(e.p1)
+                    key = ino_of[e.p1] = (st.st_dev, st.st_ino)
+            except OSError:
+                continue
+            by_inode.setdefault(key, []).append((e.x, e.x + e.ret))
+    checked = 0
+    for g in rep.groups:
+        inodes = {}
+        for p in g["files"]:
+            st = os.stat(p)
+            inodes.setdefault((st.st_dev, st.st_ino), p)
+        if len(inodes) < 2 or g["len"] == 0:
+            continue
+        for key, p in inodes.items():
+            iv = sorted(by_inode.get(key, []))
+            pos = 0
+            for a_, b_ in iv:
+                if a_ > pos:
+                    break
+                pos = max(pos, b_)
+            checked += 1
+            if pos < g["len"]:
+                witness["coverage"] = {"path": fsd(p), "len": g["len"], "covered_up_to": pos, "reads": iv[:12]}
+                return violation("C01:%s:file-not-read-completely" % _sigparts(o),
+                                 "%s (%d bytes) is reported as a duplicate although only bytes [0,%d) of it were ever read"
+                                 % (fsd(p), g["len"], pos), witness, counts=counts)
+    counts["inodes_with_full_read_coverage"] = checked
+    counts["read_events_logged"] = sum(len(v) for v in by_inode.values())
+    return None
 
 
 def _sigparts(o):
